@@ -15,7 +15,7 @@ UNIT = dict(
     properties=['C01', 'C03', 'C14', 'C19'],   # default tags; per-function `props` below override
     prelude=['io.rs', 'pdfobj.rs', 'absobj.rs', 'containers.rs'],
     spec=['spec.rs', 'xrefspec.rs', 'docspec.rs'],
-    post=['grammar.rs'],
+    post=['grammar.rs', '../reader/xsspec.rs', 'xrefrt.rs'],
     types=[
         dict(file='src/reader.rs', kind='const', name='MAX_BRACKET'),
         dict(file='src/object.rs', kind='type', name='ObjectId'),
